@@ -47,6 +47,7 @@ from ..index import (
     AnalysisError,
     FuncNode,
     call_name,
+    calls_in,
     enclosing_function,
     kwarg,
     last_attr,
@@ -377,9 +378,75 @@ def run(chk) -> None:
     chk.rule("R05a", "no while/count() loop in rules/ or utils/ subscripts a sequence with an index it advances unless a length (or >= 0) bound of that index is known at the subscript")
     chk.rule("R05b", "every next(it) without default and seq.index(x) in rules/ and utils/ is guarded (try / membership test) or is a site reviewed and frozen in the table")
     chk.rule("R05c", "BaseRule.crawl runs _eval/_eval_rust inside try: (BdbQuit, KeyboardInterrupt) re-raised, Exception logged and converted to an 'Unexpected exception' SQLLintError without re-raising")
+    chk.rule("R05d", "a function in rules/ or utils/ that calls a function of its own name (recursion, or delegation to a parent/child object) forwards each of its boolean flag parameters unchanged, or the site is a reviewed table entry")
     _r05a(chk)
     _r05b(chk)
     _r05c(chk)
+    _r05d(chk)
+
+
+# ---- R05d -------------------------------------------------------------------
+
+# (relative path, qualified function, flag) -> reason why the flag is deliberately not forwarded as is
+R05D_REVIEWED: Dict[Tuple[str, str, str], str] = {}
+
+
+def _r05d(chk) -> None:
+    """Recursive / delegating calls carry the protocol of the walk in their flags: the
+    flag that makes a look-up consume what it finds is what bounds the recursion of the
+    wildcard analysis (AM04/AM07 follow CTE definitions until ``lookup_cte(pop=True)`` has
+    removed them), a crawl's ``recurse_into`` decides what a rule sees.  A same-name call
+    that pins such a flag to a constant, or drops it, changes the walk for every nested
+    level only -- which no single-level test input shows."""
+    repo = chk.repo
+    n = 0
+    for scope in SCOPES:
+        for m in repo.iter_modules(scope):
+            for q, f in m.functions():
+                all_params = [a for a in f.args.args + f.args.kwonlyargs]
+                pos_params = [a.arg for a in f.args.args]
+                flags = [a.arg for a in all_params if a.annotation is not None and norm(a.annotation) == "bool"]
+                if not flags:
+                    continue
+                for c in calls_in(f):
+                    name = c.func.attr if isinstance(c.func, ast.Attribute) else (c.func.id if isinstance(c.func, ast.Name) else None)
+                    if name != f.name:
+                        continue
+                    if isinstance(c.func, ast.Attribute) and isinstance(c.func.value, ast.Call) and call_name(c.func.value) == "super":
+                        continue  # super().m(..): extension of a different method body, not a step of the walk
+                    if any(k.arg is None for k in c.keywords) or any(isinstance(a, ast.Starred) for a in c.args):
+                        # **kwargs / *args: cannot bind by shape; only positional-after-star is affected
+                        pass
+                    # bind arguments to this function's own parameter list (same signature: it is the same method)
+                    bound: Dict[str, ast.expr] = {}
+                    skip = 1 if pos_params and pos_params[0] in ("self", "cls") and isinstance(c.func, ast.Attribute) else 0
+                    starred = False
+                    for i, a in enumerate(c.args):
+                        if isinstance(a, ast.Starred):
+                            starred = True
+                            continue
+                        if not starred and i + skip < len(pos_params):
+                            bound[pos_params[i + skip]] = a
+                    for k in c.keywords:
+                        if k.arg:
+                            bound[k.arg] = k.value
+                    for fl in flags:
+                        n += 1
+                        key = (m.relpath, q, fl)
+                        v = bound.get(fl)
+                        ok = isinstance(v, ast.Name) and v.id == fl
+                        if not ok and key in R05D_REVIEWED:
+                            chk.ok("R05d", f"{m.relpath}::{q}", f"flag {fl}: reviewed: {R05D_REVIEWED[key]}")
+                            continue
+                        how = "does not pass it on (the callee's default applies)" if v is None else f"passes `{norm(v)}` instead"
+                        chk.require(
+                            ok, "R05d", c,
+                            f"{q} calls {name}() again but {how} for its flag `{fl}`: nested levels of the walk run under a different protocol than the first "
+                            "(e.g. a look-up that no longer consumes what it finds never terminates on self-referencing input)",
+                            detail=f"{q}: flag {fl} forwarded unchanged",
+                        )
+    chk.count("R05d.flag_forwarding_sites", n)
+    chk.floor("R05d.flag_forwarding_sites", 4)
 
 
 # ---- R05a -------------------------------------------------------------------
@@ -717,6 +784,18 @@ LT08 = "src/sqlfluff/rules/layout/LT08.py"
 LT07 = "src/sqlfluff/rules/layout/LT07.py"
 
 VARIANTS = [
+    Variant(
+        "lookup-cte-parent-never-pops", "src/sqlfluff/utils/analysis/query.py",
+        "self.parent.lookup_cte(name, pop)",
+        "self.parent.lookup_cte(name, pop=False)",
+        "R05d", "lookup_cte", "seeded C05-1: wildcard analysis recurses forever on a self-referencing CTE reached through another CTE",
+    ),
+    Variant(
+        "quiet-lookup-cte-flag-by-keyword", "src/sqlfluff/utils/analysis/query.py",
+        "self.parent.lookup_cte(name, pop)",
+        "self.parent.lookup_cte(name, pop=pop)",
+        "QUIET", None, "flag forwarded by keyword",
+    ),
     Variant(
         "st12-inner-bound-off-by-one", ST12,
         "while j + 1 < n and _whitespace_only_between(terms[j], terms[j + 1]):",
